@@ -263,6 +263,24 @@ def r4(ctx):
                 n += 1
                 ctx.check("C07.R4", norm(x.func.value) == "self.reader", key(f, norm(x)), site(f, x), "Body refills from `%s`, not from its framed reader" % norm(x.func.value), "self.reader.read")
     ctx.floor("C07.R4", "refill sites", n, 2)
+    # one buffer: the bytes Body holds between calls live in `buf` only -- read(), readline(), readlines() and iteration all take
+    # from it; a second container (a queue of pre-split lines, a look-ahead block) is invisible to the other three calls
+    holders = {}
+    for f in cls.methods.values():
+        for x in walk_own(f.node):
+            if isinstance(x, ast.Assign):
+                for t in x.targets:
+                    if isinstance(t, ast.Attribute) and isinstance(t.value, ast.Name) and t.value.id == "self":
+                        v = x.value
+                        q = repo.call_target(f.module, f, v) if isinstance(v, ast.Call) else None
+                        is_container = isinstance(v, (ast.List, ast.Dict, ast.Set, ast.ListComp)) or (isinstance(v, ast.Constant) and isinstance(v.value, (bytes, bytearray))) or \
+                            (q in ("io.BytesIO", "collections.deque", "bytearray", "list", "dict", "queue.Queue") or (q or "").endswith(".deque"))
+                        if is_container:
+                            holders.setdefault(t.attr, (f, x))
+    extra = sorted(k for k in holders if k != "buf")
+    ctx.check("C07.R4", "buf" in holders and not extra, key(cls.methods.get("__init__") or list(cls.methods.values())[0], "one-buffer"), site(holders[extra[0]][0], holders[extra[0]][1]) if extra else "gunicorn/http/body.py: Body",
+              "Body keeps body bytes in more than one container (%s besides `buf`): the calls that do not look at the extra one skip or reorder those bytes when an application mixes read / readline / iteration" % extra,
+              "single buffer `buf`")
     # iteration yields whole lines: __next__ hands on what an *unbounded* readline() returns (a size cap would cut a long line
     # into fragments, unlike any file object) and ends on the empty read
     fn = ctx.fn(repo.func(BODY + ".Body.__next__"))
